@@ -1,7 +1,7 @@
 (* Correspondence entry point for C11 / C12 (and the DataFrame parts of C04 / C19) *)
 From Coq Require Import List ZArith QArith Qcanon Bool.
 Import ListNotations.
-From Flodym Require Export Base.ND Base.Env Np.Einsum Np.Index Model.Dims Model.Array Model.Instances Model.DF.
+From Flodym Require Export Base.ND Base.Env Np.Einsum Np.Index Model.Dims Model.Array Model.Instances Model.DF Model.Detect.
 Local Open Scope nat_scope.
 
 Definition rowQ := row Qc.
@@ -25,10 +25,24 @@ Fixpoint rows_agree (m : list rowQ) (o : list (list nat * option Qc)) : bool :=
 Inductive case :=
 | CImport (ds : dimset) (omitted_multi unmatched allow_missing allow_extra : bool) (rows : list rowQ)
           (exp : res (list (option Qc)))
-| CExport (a : fQ) (sparse : bool) (exp : list (list nat * option Qc)).
+| CExport (a : fQ) (sparse : bool) (exp : list (list nat * option Qc))
+| CDetect (ds : list tdim) (allow_missing allow_extra : bool) (t : table) (exp : res (list (option Qc)))
+| CBoth (a b : case).
 
-Definition check (c : case) : bool :=
+(* the layout recognition as it stands: the repairs are in, years 1700 .. 2300 *)
+Definition current_detect_fixed : bool := true.
+Definition convertQ := convert current_detect_fixed 1700%Z 2300%Z.
+
+Fixpoint check (c : case) : bool :=
   match c with
   | CImport ds om um am ae rows exp => res_agree vals_agree (importQ ds om um am ae rows) exp
   | CExport a sp exp => rows_agree (to_rowsQ sp a) exp
+  | CDetect ds am ae t exp =>
+      match convertQ ds am ae t, exp with
+      | OUnmodelled, _ => true
+      | OValues v, Ok w => vals_agree v w
+      | ORefused, Err => true
+      | _, _ => false
+      end
+  | CBoth a b => check a && check b
   end.
